@@ -10,8 +10,14 @@ LEVEL = 'proof'
 RULE = ('generated projects (libraries of all kinds, executables using them, per-target and global options with adversarial '
         'argument strings, command() with environment, multi-output build_step, copy_file, alias, default) under generated configure '
         'options (library mode, prefix, CFLAGS/LDFLAGS/CPPFLAGS/LDLIBS from the environment), plain and odd file names; a case = one '
-        'step of one project compared across backends; non-trivial when its argv contains a character outside [A-Za-z0-9_./=-]')
+        'step of one project compared across backends; non-trivial when its argv contains a character outside [A-Za-z0-9_./=-]. '
+        'W:emit: random scripts driven through the real builtins in an in-process build context (compile with header objects / pch / '
+        'extra_deps / second output, static+shared libraries, executables sharing objects, command, single- and multi-output build_step, '
+        'copy_file, alias, test, default, install); the Rule / Build tuples registered by the real Make and Ninja handlers compared with '
+        'Graph/Emit.v per edge and per script, and with each other (prerequisite sets, target sets)')
 TRUSTED = ('Ninja reader model (no ninja binary): harness/ninjaparse.py + Ninja/NinjaRead.v',
+           'emitter model: an Edge is abstracted to its attribute dump (harness/c03.py abstract_step); the spelling of .stamp / .dir '
+           'names is taken from the real Path.addext / parent / append (C12)',
            'real GNU Make 4.3 and dash execute the Makefile with the compiler/linker/archiver replaced by the argv recorder',
            'documented backend-specific additions removed before comparing: -fdiagnostics-color (Ninja), depfile post-processing (Make)')
 NINJA_ONLY_FLAGS = {'-fdiagnostics-color'}
@@ -218,6 +224,14 @@ def run(rep):
     rep.proof_stage(coqchk=thorough)
     dis = stage_flags_model(rep, rng, 400 if thorough else 100)
     found = 0
+    # the emitter model of C06_deps / C06_targets against the real Make and Ninja rule handlers (shared with C03), with
+    # its model-independent comparison of the prerequisite sets and target sets the two handlers register
+    from . import c03
+    dis_e, bad_e = c03.stage_w_emit(rep, random.Random(rng.random()), 200 if thorough else 30)
+    found += bad_e
+    if dis_e and not found:
+        _, bad_e2 = c03.stage_w_emit(rep, random.Random(rng.random()), 2000 if thorough else 300, tag='W:emit widened')
+        found += bad_e2
     n = 24 if thorough else 4
     for i in range(n * (3 if dis else 1)):
         found += one_project(rep, rng, i, odd_names=(i % 2 == 1))
@@ -225,6 +239,10 @@ def run(rep):
     if rep.traces == 0:
         rep.fail('no generated project could be configured: the system-level comparison did not run',
                  {'obligation': 'system-level correspondence', 'samples': rep.samples[:2]}, found_input=False)
+    if dis_e and not found:
+        i, call, iv, mv = dis_e[0]
+        rep.fail('W:%s - emitter model and real rule handler disagree (%d cases), e.g. %r: impl %r, model %r' % (call[0], len(dis_e), call[1], iv, mv),
+                 {'obligation': 'W:' + call[0], 'call': call, 'impl': iv, 'model': mv}, found_input=False)
     if dis and not found:
         i, call, iv, mv = dis[0]
         rep.fail('W:%s - model and implementation disagree (%d cases), e.g. %r: impl %r, model %r' % (call[0], len(dis), call[1], iv, mv),
